@@ -6,6 +6,7 @@ import (
 	"errors"
 	"fmt"
 	"math/rand"
+	"runtime"
 	"sync"
 	"sync/atomic"
 	"time"
@@ -66,6 +67,10 @@ type SimConfig struct {
 	Backend     pt.GameBackend
 	NoAutoSetup bool // do not answer OnReadyOpenFirstTableGame with SetUpTableGame
 	NoGateSpy   bool
+	// Jitter > 0: with that probability every callback sleeps up to JitterMax before it records (a slow consumer
+	// on the engine's own goroutines); widens the windows between the updater, the ready-group goroutines and callers.
+	Jitter    float64
+	JitterMax time.Duration
 	// OnSync, if set, runs synchronously inside the engine's OnTableUpdated callback (on the engine's goroutine,
 	// with the live table) before the snapshot is recorded: this is where actors are fed, exactly like the
 	// repository's own actor tests do.
@@ -87,6 +92,8 @@ type Sim struct {
 	seen map[string]bool
 
 	autoJoinUpdated int64
+	jmu             sync.Mutex
+	jr              *rand.Rand
 	Calls           int64
 	inflight        int64
 }
@@ -116,7 +123,28 @@ func (s *Sim) push(e *Ev) {
 	}
 }
 
+func (s *Sim) jitter() {
+	if s.Cfg.Jitter <= 0 {
+		return
+	}
+	s.jmu.Lock()
+	hit := s.jr.Float64() < s.Cfg.Jitter
+	d := time.Duration(0)
+	if hit && s.Cfg.JitterMax > 0 {
+		d = time.Duration(s.jr.Int63n(int64(s.Cfg.JitterMax)))
+	}
+	s.jmu.Unlock()
+	if hit {
+		if d < 20*time.Microsecond {
+			runtime.Gosched()
+		} else {
+			time.Sleep(d)
+		}
+	}
+}
+
 func (s *Sim) pushTable(kind, name string, t *pt.Table) {
+	s.jitter()
 	s.mu.Lock()
 	defer s.mu.Unlock()
 	c, b := cloneTable(t)
@@ -124,6 +152,9 @@ func (s *Sim) pushTable(kind, name string, t *pt.Table) {
 }
 
 func (s *Sim) pushEv(e *Ev) {
+	if e.Kind != EvCall && e.Kind != EvRet {
+		s.jitter()
+	}
 	s.mu.Lock()
 	defer s.mu.Unlock()
 	s.push(e)
@@ -148,7 +179,7 @@ func (o *gateSpy) PrintState()                 { o.inner.PrintState() }
 
 // NewSim creates the engine, registers all callbacks and creates the table.
 func NewSim(cfg SimConfig, seed int64) (*Sim, error) {
-	s := &Sim{Cfg: cfg, R: rand.New(rand.NewSource(seed)), seen: map[string]bool{}, ch: make(chan *Ev, 1<<16)}
+	s := &Sim{Cfg: cfg, R: rand.New(rand.NewSource(seed)), seen: map[string]bool{}, ch: make(chan *Ev, 1<<16), jr: rand.New(rand.NewSource(seed ^ 0x5eed))}
 	opts := pt.NewTableEngineOptions()
 	opts.GameContinueInterval = cfg.Interval
 	be := cfg.Backend
